@@ -12,6 +12,7 @@ pub mod drive_ref;
 pub mod fixtures;
 pub mod kat;
 pub mod mirror;
+pub mod paths;
 pub mod model;
 pub mod program;
 pub mod props;
@@ -39,7 +40,7 @@ fn main() {
     }
     if args.len() >= 2 && args[1] == "record-fixtures" {
         fixtures::record_all();
-        println!("fixtures written to {}", fixtures::DIR);
+        println!("fixtures written to {}", fixtures::dir());
         return;
     }
     if args.len() < 2 {
